@@ -58,7 +58,7 @@ type APIDesc struct {
 	DefaultProduces string   `json:"default_produces"` // "" = WithoutJSONDefaults
 	Global          []string `json:"global_produces,omitempty"`
 	Ops             []OpDesc `json:"ops"`
-	Realm           *string  `json:"realm,omitempty"` // nil: security.BasicAuth (library default realm)
+	Realm           *string  `json:"realm,omitempty"`            // nil: security.BasicAuth (library default realm)
 	NoOpIDs         bool     `json:"no_operation_ids,omitempty"` // the operations declare no operationId
 }
 
@@ -270,9 +270,16 @@ type tagProducer struct {
 
 func (p *tagProducer) Produce(w io.Writer, v interface{}) error {
 	p.b.obs.produced = append(p.b.obs.produced, prodCall{p.tag, v})
+	if pl, ok := v.(*payload); ok && strings.HasPrefix(pl.Token, failingToken) {
+		// a producer that fails half-way: what it wrote must not leak into any other response
+		_, _ = io.WriteString(w, "[PARTIAL-OUTPUT-OF-A-FAILED-PRODUCER]")
+		return fmt.Errorf("producer %s failed half-way", p.tag)
+	}
 	_, err := io.WriteString(w, "["+p.tag+"]"+render(v))
 	return err
 }
+
+const failingToken = "FAILING-PRODUCER:"
 
 type customResponder struct {
 	b    *built
@@ -348,6 +355,8 @@ func (b *built) handle() (interface{}, error) {
 	switch o.Kind {
 	case "value":
 		res = &payload{Token: o.Data}
+	case "value-producer-fails":
+		res = &payload{Token: failingToken + o.Data}
 	case "nil":
 	case "responder":
 		res = &customResponder{b: b, code: o.Code, data: &payload{Token: o.Data}}
@@ -554,6 +563,12 @@ func runCaseOn(m *mon.M, c *Case, b *built, h http.Handler) {
 		m.Violate(sig, detail, cs)
 	}
 	pv, st := mon.Catch(func() { h.ServeHTTP(rec, req) })
+	if rq.Outcome.Kind == "value-producer-fails" {
+		// the statement says nothing about a failing producer (the code panics for a recovery middleware):
+		// this request is not judged; it is there for what it may leave behind for the next ones
+		m.Class("producer-failure-injected")
+		return
+	}
 	obs := *b.obs
 	res := rec.Result()
 	body := rec.Body.String()
@@ -1061,7 +1076,7 @@ func genAPI(r *rand.Rand) *APIDesc {
 	return d
 }
 
-var outcomeKinds = []string{"value", "value", "value", "value", "nil", "responder", "responder", "lib-error", "lib-error", "not-implemented", "api-error", "plain-error", "composite-error"}
+var outcomeKinds = []string{"value", "value", "value", "value", "value-producer-fails", "nil", "responder", "responder", "lib-error", "lib-error", "not-implemented", "api-error", "plain-error", "composite-error"}
 
 func genOutcome(r *rand.Rand, i int) Outcome {
 	o := Outcome{Kind: outcomeKinds[r.Intn(len(outcomeKinds))], Data: fmt.Sprintf("tok%d", i)}
